@@ -938,6 +938,7 @@ class HfProtocol(utils.EventEmitter):
             self.supported_ag_call_hold_operations = [
                 CallHoldOperation(operation.decode())
                 for operation in response.parameters[0]
+                if operation  # "()" (no operation supported) parses as one empty token
             ]
 
         # 4.2.1.4 HF Indicators
